@@ -19,7 +19,12 @@ Inductive op :=
 | OPCopy (g a : Z) | OPAdd (g a b : Z) | OPSub (g a b : Z) | OPNeg (g a : Z)
 | OPMul (g s a : Z) | OPMulBase (g s : Z)
 | OPair (a b : Z)
-| OValidate (p1 p2 i1 i2 : Z).
+| OValidate (p1 p2 i1 i2 : Z)
+(* the same operations with an EXISTING object as receiver: the result replaces
+   slot d of the pool (the object keeps its identity, its value changes) *)
+| OSCopy (a : Z)
+| OPInto (g d : Z) (o : op)
+| OSInto (d : Z) (o : op).
 
 Section Run.
   Variable q : Z.
@@ -40,7 +45,22 @@ Section Run.
   Definition pushs (s : state) (x : F) : state :=
     mkst (sc s ++ [x]) (g1 s) (g2 s) (gt s) (verdicts s).
 
-  Definition step (s : state) (o : op) : state :=
+  Definition setpool (s : state) (g : Z) (l : list F) : state :=
+    if g =? 0 then mkst (sc s) l (g2 s) (gt s) (verdicts s)
+    else if g =? 1 then mkst (sc s) (g1 s) l (gt s) (verdicts s)
+    else mkst (sc s) (g1 s) (g2 s) l (verdicts s).
+
+  Definition set_nth (l : list F) (i : Z) (x : F) : list F :=
+    firstn (Z.to_nat i) l ++ x :: skipn (S (Z.to_nat i)) l.
+
+  (* the last element (just pushed) moves into slot d *)
+  Definition move_last (l : list F) (d : Z) : list F :=
+    match rev l with
+    | [] => l
+    | x :: r => set_nth (rev r) d x
+    end.
+
+  Definition step1 (s : state) (o : op) : state :=
     match o with
     | OSConst v => pushs s (of_Z q v)
     | OSAdd a b => pushs s (zadd (get (sc s) a) (get (sc s) b))
@@ -63,6 +83,16 @@ Section Run.
         mkst (sc s) (g1 s) (g2 s) (gt s)
              (verdicts s ++ [peqb (pair (get (g1 s) p1) (get (g2 s) p2))
                                   (pair (get (g1 s) i1) (get (g2 s) i2))])
+    | OSCopy a => pushs s (get (sc s) a)
+    | OPInto _ _ _ | OSInto _ _ => s
+    end.
+
+  Definition step (s : state) (o : op) : state :=
+    match o with
+    | OPInto g d o' => let s' := step1 s o' in setpool s' g (move_last (pool s' g) d)
+    | OSInto d o' => let s' := step1 s o' in
+                     mkst (move_last (sc s') d) (g1 s') (g2 s') (gt s') (verdicts s')
+    | _ => step1 s o
     end.
 
   Definition run (ops : list op) : state := fold_left step ops (mkst [] [] [] [] []).
